@@ -36,8 +36,10 @@ def rat(r):
 # narrow integer ones make the data span more than the dtype's positive range
 EMB_INT = [("float64", (1, 0)), ("float32", (1, 0)), ("int32", (1, 0)), ("int64", (1, 0)), ("int8", (50, -100)),
            ("int16", (15000, -30000)), ("uint8", (60, 0)), ("uint16", (15000, 0)), ("float64", (3, 7)), ("int32", (3, 7)),
-           ("float32", (50, -100)), ("int64", (15000, -30000))]
-EMB_TOK = [("float64", (1, 0)), ("float32", (1, 0)), ("float64", (3, 7)), ("float32", (50, -100)), ("float64", (15000, -30000))]
+           ("float32", (50, -100)), ("int64", (15000, -30000)), ("float64", (1024, 0)), ("float64", (2.0 ** -30, 0)),
+           ("float32", (2.0 ** -30, 0)), ("float64", (2.0 ** -44, 0)), ("float64", (2.0 ** 40, 0))]
+EMB_TOK = [("float64", (1, 0)), ("float32", (1, 0)), ("float64", (3, 7)), ("float32", (50, -100)), ("float64", (15000, -30000)),
+           ("float64", (2.0 ** -30, 0)), ("float32", (2.0 ** -30, 0)), ("float64", (2.0 ** 40, 0))]
 
 
 def kwargs_of(cfg, af=(1, 0), as_int=False):
